@@ -13,7 +13,27 @@ COMPUTE_ENTRIES = ["compute_shell_pair", "compute_shell_pair_derivative", "compu
 CTOR_ENTRIES = ["ECPIntegral"]
 
 
+def drop_hooks(s):
+    """remove #ifdef LIBECPINT_VERIF ... [#else keep] #endif blocks: C10 is about the library without the hooks"""
+    out = []; lines = s.split("\n"); i = 0; depth = 0; mode = []
+    for ln in lines:
+        t = ln.strip()
+        if re.match(r"#\s*ifdef\s+LIBECPINT_VERIF\b", t):
+            mode.append("drop"); out.append(""); continue
+        if mode and re.match(r"#\s*if", t):
+            mode.append("nested"); 
+        elif mode and re.match(r"#\s*else", t) and mode[-1] in ("drop", "keep"):
+            mode[-1] = "keep" if mode[-1] == "drop" else "drop"; out.append(""); continue
+        elif mode and re.match(r"#\s*endif", t):
+            m = mode.pop()
+            if m in ("drop", "keep"):
+                out.append(""); continue
+        out.append("" if ("drop" in mode) else ln)
+    return "\n".join(out)
+
+
 def strip(s):
+    s = drop_hooks(s)
     s = re.sub(r"/\*.*?\*/", lambda m: " " * len(m.group(0)), s, flags=re.S)
     s = re.sub(r"//[^\n]*", lambda m: " " * len(m.group(0)), s)
     s = re.sub(r'"(\\.|[^"\\])*"', lambda m: '"' + " " * (len(m.group(0)) - 2) + '"', s)
